@@ -1,3 +1,4 @@
+import math
 from typing import Any
 from synapgrad.tensor import Tensor
 from synapgrad import cpu_ops
@@ -1019,8 +1020,8 @@ def flatten(x:Tensor, start_dim:int=0, end_dim:int=-1) -> 'Tensor':
     end = end_dim + ndim if end_dim < 0 else end_dim
     if start > end:
         raise RuntimeError("flatten() has invalid args: start_dim cannot come after end_dim")
-    if start < end:
-        shape = shape[:start] + (-1,) + shape[end+1:]
+    # explicit merged size: a -1 cannot be inferred next to a zero-size dim, and a 0-d tensor flattens to (1,)
+    shape = shape[:start] + (math.prod(shape[start:end+1]),) + shape[end+1:]
     
     if x.device == Device.CPU:
         out_data = cpu_ops.reshape_forward(x.data, shape)
